@@ -255,4 +255,338 @@ theorem allInt0_complete' (C : Consts ℝ) (basic : XP ℝ → XP ℝ) (conj2 : 
   have := dist_triangle e a p0
   linarith
 
+/-! ## completeness of `ClosestInt` under the contract -/
+
+theorem fixc_c0 (p0 p : XP ℝ) (h : p.c = 0) : fixc p0 p = p := by simp [fixc, fixcoincident, h]
+
+/-- every start is visited, or pruned by the answer of a visited start, or the loop left early with a point within `t1` -/
+theorem closestLoop_cover (C : Consts ℝ) (basic : XP ℝ → XP ℝ) (p0 : XP ℝ) :
+    ∀ (rest : List (XP ℝ)) (first : Bool) (pr : List (XP ℝ)) (o : Out ℝ),
+      (∀ p ∈ pr, ∃ t ∈ o.visited, p = ans basic p0 t) →
+      (∀ t ∈ o.visited, t ∈ (closestLoop C basic p0 first rest pr o).visited) ∧
+      ∀ s ∈ rest, s ∈ (closestLoop C basic p0 first rest pr o).visited ∨
+        (∃ t ∈ (closestLoop C basic p0 first rest pr o).visited, dist (ans basic p0 t) s < closestThr C) ∨
+        (∃ b, (closestLoop C basic p0 first rest pr o).q = some b ∧ dist b p0 < C.t1) := by
+  intro rest
+  induction rest with
+  | nil => intro first pr o _; simp only [closestLoop]; exact ⟨fun t ht => ht, fun s hs => by cases hs⟩
+  | cons s rest ih =>
+    intro first pr o hpr
+    -- continuing with a state that has visited `s` (and possibly a new pruner that is the answer at `s`)
+    have cont : ∀ (pr' : List (XP ℝ)) (o' : Out ℝ), o'.visited = o.visited ++ [s] →
+        (∀ p ∈ pr', ∃ t ∈ o'.visited, p = ans basic p0 t) →
+        (∀ t ∈ o.visited, t ∈ (closestLoop C basic p0 false rest pr' o').visited) ∧
+        ∀ s' ∈ s :: rest, s' ∈ (closestLoop C basic p0 false rest pr' o').visited ∨
+          (∃ t ∈ (closestLoop C basic p0 false rest pr' o').visited, dist (ans basic p0 t) s' < closestThr C) ∨
+          (∃ b, (closestLoop C basic p0 false rest pr' o').q = some b ∧ dist b p0 < C.t1) := by
+      intro pr' o' hv hp'
+      obtain ⟨a, b⟩ := ih false pr' o' hp'
+      refine ⟨fun t ht => a t (by rw [hv]; exact List.mem_append_left _ ht), ?_⟩
+      intro s' hs'
+      rcases List.mem_cons.mp hs' with h | h
+      · left; rw [h]; exact a s (by rw [hv]; simp)
+      · exact b s' h
+    simp only [closestLoop]
+    by_cases hsk : skipped pr (closestThr C) s = true
+    · rw [if_pos hsk]
+      obtain ⟨a, b⟩ := ih false pr o hpr
+      refine ⟨a, ?_⟩
+      intro s' hs'
+      rcases List.mem_cons.mp hs' with h | h
+      · obtain ⟨qy, hqy, hlt⟩ := (skipped_iff _ _ _).mp hsk
+        obtain ⟨t, ht, rfl⟩ := hpr qy hqy
+        right; left; rw [h]; exact ⟨t, a t ht, hlt⟩
+      · exact b s' h
+    · rw [if_neg hsk]
+      have hqa : fixc p0 (basic s) = ans basic p0 s := rfl
+      generalize fixc p0 (basic s) = qx at hqa
+      by_cases heq : eqO C.delta o.q qx = true
+      · rw [if_pos heq]
+        exact cont pr _ rfl (fun p hp => by obtain ⟨t, ht, e⟩ := hpr p hp; exact ⟨t, List.mem_append_left _ ht, e⟩)
+      · rw [if_neg heq]
+        by_cases hbr : RealLike.ltb (dist qx p0) C.t1 = true
+        · rw [if_pos hbr]
+          simp only [ltb_real, decide_eq_true_eq] at hbr
+          refine ⟨fun t ht => List.mem_append_left _ ht, fun s' _ => Or.inr (Or.inr ⟨qx, rfl, hbr⟩)⟩
+        · rw [if_neg hbr]
+          have hp' : ∀ (v : List (XP ℝ)), v = o.visited ++ [s] → ∀ p ∈ qx :: pr, ∃ t ∈ v, p = ans basic p0 t := by
+            intro v hv p hp
+            rcases List.mem_cons.mp hp with h | h
+            · exact ⟨s, by rw [hv]; simp, by rw [h, hqa]⟩
+            · obtain ⟨t, ht, e⟩ := hpr p h; exact ⟨t, by rw [hv]; exact List.mem_append_left _ ht, e⟩
+          split
+          · exact cont (qx :: pr) _ rfl (hp' _ rfl)
+          · exact cont (qx :: pr) _ rfl (hp' _ rfl)
+
+/-- the five starts of `ClosestInt` (table of the current source) cover the L1 ball of radius `2 d1` by balls of radius `d1` -/
+theorem closestStarts_cover (C : Consts ℝ) (p0 a : XP ℝ) (ha : dist a p0 ≤ 2 * C.d1) :
+    ∃ s ∈ closestStarts C p0, dist a s ≤ C.d1 := by
+  have hm : ∀ i j : Int, (i, j) ∈ [((1 : Int), (0 : Int)), (-1, 0), (0, 1), (0, -1)] →
+      XP.add p0 (mk0 ((i : ℝ) * C.d1) ((j : ℝ) * C.d1)) ∈ closestStarts C p0 := by
+    intro i j hij
+    simp only [closestStarts, offsets, startAt, Gen.IntersectC.closestIx, Gen.IntersectC.closestIy, List.zip_cons_cons, List.zip_nil_right,
+      List.map_cons, List.map_nil, ofC_real, List.mem_cons, List.not_mem_nil, or_false]
+    simp only [List.mem_cons, List.not_mem_nil, or_false, Prod.mk.injEq] at hij
+    rcases hij with ⟨rfl, rfl⟩ | ⟨rfl, rfl⟩ | ⟨rfl, rfl⟩ | ⟨rfl, rfl⟩ <;> simp
+  rw [dist_real] at ha
+  set dx := a.x - p0.x with hdx
+  set dy := a.y - p0.y with hdy
+  have dist_s : ∀ i j : Int, dist a (XP.add p0 (mk0 ((i : ℝ) * C.d1) ((j : ℝ) * C.d1))) = |dx - (i : ℝ) * C.d1| + |dy - (j : ℝ) * C.d1| := by
+    intro i j; rw [add_mk0_zero, dist_real]; simp only [hdx, hdy]; congr 1 <;> congr 1 <;> ring
+  by_cases hxy : |dy| ≤ |dx|
+  · by_cases hx0 : 0 ≤ dx
+    · refine ⟨_, hm 1 0 (by simp), ?_⟩
+      rw [dist_s 1 0]; push_cast
+      rw [abs_of_nonneg hx0] at ha hxy
+      rcases abs_cases (dx - 1 * C.d1) with ⟨e, _⟩ | ⟨e, _⟩ <;> rw [e] <;> simp only [zero_mul, sub_zero] <;> linarith
+    · have hx0' : dx < 0 := not_le.mp hx0
+      refine ⟨_, hm (-1) 0 (by simp), ?_⟩
+      rw [dist_s (-1) 0]; push_cast
+      rw [abs_of_neg hx0'] at ha hxy
+      rcases abs_cases (dx - -1 * C.d1) with ⟨e, _⟩ | ⟨e, _⟩ <;> rw [e] <;> simp only [zero_mul, sub_zero] <;> linarith
+  · have hxy' : |dx| < |dy| := not_le.mp hxy
+    by_cases hy0 : 0 ≤ dy
+    · refine ⟨_, hm 0 1 (by simp), ?_⟩
+      rw [dist_s 0 1]; push_cast
+      rw [abs_of_nonneg hy0] at ha hxy'
+      rcases abs_cases (dy - 1 * C.d1) with ⟨e, _⟩ | ⟨e, _⟩ <;> rw [e] <;> simp only [zero_mul, sub_zero] <;> linarith
+    · have hy0' : dy < 0 := not_le.mp hy0
+      refine ⟨_, hm 0 (-1) (by simp), ?_⟩
+      rw [dist_s 0 (-1)]; push_cast
+      rw [abs_of_neg hy0'] at ha hxy'
+      rcases abs_cases (dy - -1 * C.d1) with ⟨e, _⟩ | ⟨e, _⟩ <;> rw [e] <;> simp only [zero_mul, sub_zero] <;> linarith
+
+/-- **`ClosestInt` returns the closest intersection** (up to the tolerances) for every kernel satisfying the contract with
+    capture radius `d1`: no intersection within `2 d1` of `p0` is closer than the returned point by more than `ε + δ` -/
+theorem closestInt_complete' (C : Consts ℝ) (basic : XP ℝ → XP ℝ) (p0 : XP ℝ) (I : XP ℝ → Prop) (ε : ℝ)
+    (hδ : 0 ≤ C.delta) (hεδ : ε ≤ C.delta) (K : Contract C basic I ε C.d1) :
+    ∃ b, (closestInt C basic p0).q = some b ∧ (∃ a, I a ∧ dist b a ≤ ε) ∧
+      ∀ a, I a → dist a p0 ≤ 2 * C.d1 → dist b p0 ≤ dist a p0 + ε + C.delta := by
+  obtain ⟨post, _, hsome⟩ := closestInt_spec C hδ basic p0
+  have hans : ∀ t, ans basic p0 t = basic t := fun t => fixc_c0 p0 _ (K.c0 t)
+  have hne : closestStarts C p0 ≠ [] := by
+    simp [closestStarts, offsets, Gen.IntersectC.closestIx, Gen.IntersectC.closestIy]
+  obtain ⟨b, hb⟩ : ∃ b, (closestInt C basic p0).q = some b := by
+    cases hq : (closestInt C basic p0).q with
+    | none => exact absurd hq (hsome hne)
+    | some b => exact ⟨b, rfl⟩
+  obtain ⟨tb, _, hbt⟩ := post.isans b hb
+  rw [hans] at hbt
+  refine ⟨b, hb, by rw [hbt]; obtain ⟨a, ha, h⟩ := K.snd tb; exact ⟨a, ha, h⟩, ?_⟩
+  intro a ha hda
+  obtain ⟨s, hs, hds⟩ := closestStarts_cover C p0 a hda
+  have hcov := (closestLoop_cover C basic p0 (closestStarts C p0) true [] { q := none, visited := [], nchange := 0 }
+    (fun p hp => by cases hp)).2 s hs
+  have viaVisited : ∀ t ∈ (closestInt C basic p0).visited, dist (basic t) a ≤ ε → dist b p0 ≤ dist a p0 + ε + C.delta := by
+    intro t ht hta
+    obtain ⟨b', hb', hmin⟩ := post.min t ht
+    rw [hb] at hb'; cases hb'
+    rw [hans] at hmin
+    have := dist_triangle (basic t) a p0
+    linarith
+  rcases hcov with hv | ⟨t, ht, hlt⟩ | ⟨b', hb', hlt⟩
+  · exact viaVisited s hv (K.cap a ha s hds)
+  · rw [hans] at hlt
+    obtain ⟨a', ha', hta'⟩ := K.snd t
+    have t1 := dist_triangle a s a'
+    have t2 := dist_triangle s (basic t) a'
+    rw [dist_symm s (basic t)] at t2
+    have hthr : closestThr C = 2 * C.t1 - C.d1 - C.delta := by simp [closestThr, two_real]
+    have : dist a a' = 0 := K.sep a a' ha ha' (by rw [hthr] at hlt; linarith)
+    exact viaVisited t ht (by rw [dist_congr_of_zero this]; exact hta')
+  · have e : b' = b := by
+      have : (closestLoop C basic p0 true (closestStarts C p0) [] { q := none, visited := [], nchange := 0 }).q = some b := hb
+      rw [this] at hb'; cases hb'; rfl
+    rw [e] at hlt
+    obtain ⟨a', ha', hba'⟩ := K.snd tb
+    rw [← hbt] at hba'
+    by_cases hz : dist a a' < 2 * C.t1
+    · have := K.sep a a' ha ha' hz
+      have h1 : dist b a ≤ ε := by rw [dist_congr_of_zero this]; exact hba'
+      have := dist_triangle b a p0
+      linarith
+    · have t1 := dist_triangle a p0 a'
+      have t2 := dist_triangle p0 b a'
+      rw [dist_symm p0 b] at t2
+      linarith [not_lt.mp hz]
+
+/-! ## completeness of `NextInt` under the contract -/
+
+theorem dist0_eq_dist (p : XP ℝ) : dist0 p = dist p (mk0 zero zero) := by
+  rw [dist0_real, dist_real]; simp [mk0, zero_real]
+
+/-- for a kernel that never reports coincidence: every start is visited or pruned by a candidate of a visited start -/
+theorem nextLoop_cover (C : Consts ℝ) (basic : XP ℝ → XP ℝ) (conj : ℝ → ℝ) (hc0 : ∀ s, (basic s).c = 0) :
+    ∀ (rest pr : List (XP ℝ)) (o : NOut ℝ),
+      (∀ p ∈ pr, ∃ t ∈ o.visited, p ∈ candsOf C basic conj t) →
+      (∀ t ∈ o.visited, t ∈ (nextLoop C basic conj rest pr o).visited) ∧
+      ∀ s ∈ rest, s ∈ (nextLoop C basic conj rest pr o).visited ∨
+        ∃ t ∈ (nextLoop C basic conj rest pr o).visited, ∃ p ∈ candsOf C basic conj t, dist p s < nextThr C := by
+  intro rest
+  induction rest with
+  | nil => intro pr o _; simp only [nextLoop]; exact ⟨fun t ht => ht, fun s hs => by cases hs⟩
+  | cons s rest ih =>
+    intro pr o hpr
+    have cont : ∀ (pr' : List (XP ℝ)) (o' : NOut ℝ), o'.visited = o.visited ++ [s] →
+        (∀ p ∈ pr', ∃ t ∈ o'.visited, p ∈ candsOf C basic conj t) →
+        (∀ t ∈ o.visited, t ∈ (nextLoop C basic conj rest pr' o').visited) ∧
+        ∀ s' ∈ s :: rest, s' ∈ (nextLoop C basic conj rest pr' o').visited ∨
+          ∃ t ∈ (nextLoop C basic conj rest pr' o').visited, ∃ p ∈ candsOf C basic conj t, dist p s' < nextThr C := by
+      intro pr' o' hv hp'
+      obtain ⟨a, b⟩ := ih pr' o' hp'
+      refine ⟨fun t ht => a t (by rw [hv]; exact List.mem_append_left _ ht), ?_⟩
+      intro s' hs'
+      rcases List.mem_cons.mp hs' with h | h
+      · left; rw [h]; exact a s (by rw [hv]; simp)
+      · exact b s' h
+    simp only [nextLoop]
+    by_cases hsk : skipped pr (nextThr C) s = true
+    · rw [if_pos hsk]
+      obtain ⟨a, b⟩ := ih pr o hpr
+      refine ⟨a, ?_⟩
+      intro s' hs'
+      rcases List.mem_cons.mp hs' with h | h
+      · obtain ⟨qy, hqy, hlt⟩ := (skipped_iff _ _ _).mp hsk
+        obtain ⟨t, ht, hp⟩ := hpr qy hqy
+        right; rw [h]; exact ⟨t, a t ht, qy, hp, hlt⟩
+      · exact b s' h
+    · rw [if_neg hsk, isNaN_real]
+      simp only [Bool.false_eq_true, if_false]
+      have hfix : fixc (mk0 zero zero) (basic s) = basic s := fixc_c0 _ _ (hc0 s)
+      have hc : candsOf C basic conj s =
+          (if ((basic s).c == 0 && ceq C.delta (mk0 zero zero) (basic s)) then []
+           else if ((basic s).c != 0 && ceq C.delta (mk0 zero zero) (basic s)) then
+             [conjCand C conj (basic s).c (-1), conjCand C conj (basic s).c 1]
+           else [basic s]) := by
+        unfold candsOf; simp only [hfix]
+      rw [hfix]
+      have hcs : (basic s).c = 0 := hc0 s
+      by_cases hz : ceq C.delta (mk0 zero zero) (basic s) = true
+      · -- the origin class: nothing accepted, nothing pruned
+        have h1 : ((basic s).c == 0 && ceq C.delta (mk0 zero zero) (basic s)) = true := by simp [hcs, hz]
+        rw [if_pos h1]
+        exact cont pr _ rfl (fun p hp => by obtain ⟨t, ht, e⟩ := hpr p hp; exact ⟨t, List.mem_append_left _ ht, e⟩)
+      · have hz' : ceq C.delta (mk0 zero zero) (basic s) = false := by simpa using hz
+        have h1 : ((basic s).c == 0 && ceq C.delta (mk0 zero zero) (basic s)) = false := by simp [hz']
+        have h2 : ((basic s).c != 0 && ceq C.delta (mk0 zero zero) (basic s)) = false := by simp [hz']
+        rw [h1, h2] at hc
+        simp only [Bool.false_eq_true, if_false] at hc
+        rw [h1, h2]
+        simp only [Bool.false_eq_true, if_false]
+        have hpn : nextPruners C (basic s) (ceq C.delta (mk0 zero zero) (basic s)) = [basic s] := by
+          simp [nextPruners, hcs, hz']
+        rw [hpn]
+        apply cont _ _ (by rw [better_visited])
+        intro p hp
+        rw [better_visited]
+        simp only [List.cons_append, List.nil_append, List.mem_cons] at hp
+        rcases hp with h | h
+        · exact ⟨s, by simp, by rw [h, hc]; simp⟩
+        · obtain ⟨t, ht, e⟩ := hpr p h; exact ⟨t, List.mem_append_left _ ht, e⟩
+
+/-- the eight starts of `NextInt` (table of the current source) cover the L1 annulus `d2 ≤ |p| ≤ 3 d2` by balls of radius `d2` -/
+theorem nextStarts_cover (C : Consts ℝ) (a : XP ℝ) (hlo : C.d2 ≤ dist0 a) (hhi : dist0 a ≤ 3 * C.d2) :
+    ∃ s ∈ nextStarts C, dist a s ≤ C.d2 := by
+  have hm : ∀ i j : Int, (i, j) ∈ [((-1 : Int), (-1 : Int)), (-1, 1), (1, -1), (1, 1), (-2, 0), (0, 2), (2, 0), (0, -2)] →
+      mk0 ((i : ℝ) * C.d2) ((j : ℝ) * C.d2) ∈ nextStarts C := by
+    intro i j hij
+    simp only [nextStarts, offsets, Gen.IntersectC.nextIx, Gen.IntersectC.nextIy, List.zip_cons_cons, List.zip_nil_right,
+      List.map_cons, List.map_nil, ofC_real, List.mem_cons, List.not_mem_nil, or_false]
+    simp only [List.mem_cons, List.not_mem_nil, or_false, Prod.mk.injEq] at hij
+    rcases hij with ⟨rfl, rfl⟩ | ⟨rfl, rfl⟩ | ⟨rfl, rfl⟩ | ⟨rfl, rfl⟩ | ⟨rfl, rfl⟩ | ⟨rfl, rfl⟩ | ⟨rfl, rfl⟩ | ⟨rfl, rfl⟩ <;> simp
+  have dist_s : ∀ i j : Int, dist a (mk0 ((i : ℝ) * C.d2) ((j : ℝ) * C.d2)) = |a.x - (i : ℝ) * C.d2| + |a.y - (j : ℝ) * C.d2| := by
+    intro i j; rw [dist_real]; rfl
+  rw [dist0_real] at hlo hhi
+  have hrot := rot_le_l1 a.x a.y
+  -- rotated coordinates u = x + y, v = x − y: pick the nearest of {−2 d2, 0, 2 d2} in each
+  have pick : ∀ w : ℝ, |w| ≤ 3 * C.d2 → (C.d2 ≤ w ∧ |w - 2 * C.d2| ≤ C.d2) ∨ (w ≤ -C.d2 ∧ |w + 2 * C.d2| ≤ C.d2) ∨ (|w| < C.d2 ∧ |w - 0| ≤ C.d2) := by
+    intro w hw
+    have := abs_le.mp hw
+    by_cases h1 : C.d2 ≤ w
+    · left; exact ⟨h1, by rw [abs_le]; constructor <;> linarith [this.2]⟩
+    · by_cases h2 : w ≤ -C.d2
+      · right; left; exact ⟨h2, by rw [abs_le]; constructor <;> linarith [this.1]⟩
+      · right; right
+        have : |w| < C.d2 := by rw [abs_lt]; constructor <;> linarith [not_le.mp h1, not_le.mp h2]
+        exact ⟨this, by simpa using this.le⟩
+  have hu := pick (a.x + a.y) (le_trans hrot.1 hhi)
+  have hv := pick (a.x - a.y) (le_trans hrot.2 hhi)
+  have fin : ∀ i j : Int, (i, j) ∈ [((-1 : Int), (-1 : Int)), (-1, 1), (1, -1), (1, 1), (-2, 0), (0, 2), (2, 0), (0, -2)] →
+      |(a.x + a.y) - ((i : ℝ) + (j : ℝ)) * C.d2| ≤ C.d2 → |(a.x - a.y) - ((i : ℝ) - (j : ℝ)) * C.d2| ≤ C.d2 →
+      ∃ s ∈ nextStarts C, dist a s ≤ C.d2 := by
+    intro i j hij h1 h2
+    refine ⟨_, hm i j hij, ?_⟩
+    rw [dist_s]
+    apply l1_le_of_rot
+    · have e : a.x - (i : ℝ) * C.d2 + (a.y - (j : ℝ) * C.d2) = (a.x + a.y) - ((i : ℝ) + (j : ℝ)) * C.d2 := by ring
+      rw [e]; exact h1
+    · have e : a.x - (i : ℝ) * C.d2 - (a.y - (j : ℝ) * C.d2) = (a.x - a.y) - ((i : ℝ) - (j : ℝ)) * C.d2 := by ring
+      rw [e]; exact h2
+  rcases hu with ⟨_, hu⟩ | ⟨_, hu⟩ | ⟨hu0, hu⟩ <;> rcases hv with ⟨_, hv⟩ | ⟨_, hv⟩ | ⟨hv0, hv⟩
+  · exact fin 2 0 (by simp) (by push_cast; convert hu using 2; ring) (by push_cast; convert hv using 2; ring)
+  · exact fin 0 2 (by simp) (by push_cast; convert hu using 2; ring) (by push_cast; convert hv using 2; ring)
+  · exact fin 1 1 (by simp) (by push_cast; convert hu using 2; ring) (by push_cast; convert hv using 2; ring)
+  · exact fin 0 (-2) (by simp) (by push_cast; convert hu using 2; ring) (by push_cast; convert hv using 2; ring)
+  · exact fin (-2) 0 (by simp) (by push_cast; convert hu using 2; ring) (by push_cast; convert hv using 2; ring)
+  · exact fin (-1) (-1) (by simp) (by push_cast; convert hu using 2; ring) (by push_cast; convert hv using 2; ring)
+  · exact fin 1 (-1) (by simp) (by push_cast; convert hu using 2; ring) (by push_cast; convert hv using 2; ring)
+  · exact fin (-1) 1 (by simp) (by push_cast; convert hu using 2; ring) (by push_cast; convert hv using 2; ring)
+  · -- both rotated coordinates are smaller than d2: the point is inside the hole, excluded by `hlo`
+    exfalso
+    have := l1_le_of_rot (x := a.x) (y := a.y) (d := max |a.x + a.y| |a.x - a.y|) (le_max_left _ _) (le_max_right _ _)
+    have hmx : max |a.x + a.y| |a.x - a.y| < C.d2 := max_lt hu0 hv0
+    linarith
+
+/-- **`NextInt` returns the next closest intersection** for every kernel satisfying the contract with capture radius `d2`:
+    no intersection outside the origin class and within `3 d2` of the origin is closer than the returned point by more than `ε` -/
+theorem nextInt_complete' (C : Consts ℝ) (basic : XP ℝ → XP ℝ) (conj : ℝ → ℝ) (big : ℝ) (I : XP ℝ → Prop) (ε : ℝ)
+    (hεδ : ε ≤ C.delta) (K : Contract C basic I ε C.d2) :
+    ∀ a, I a → C.delta + ε < dist0 a → C.d2 ≤ dist0 a → dist0 a ≤ 3 * C.d2 →
+      dist0 (nextInt C basic conj big).q ≤ dist0 a + ε := by
+  intro a ha horig hlo hhi
+  obtain ⟨inv, _⟩ := nextInt_spec C basic conj big
+  obtain ⟨s, hs, hds⟩ := nextStarts_cover C a hlo hhi
+  have hcov := (nextLoop_cover C basic conj K.c0 (nextStarts C) [] { q := mk0 big zero, visited := [], nchange := 0, nan := false }
+    (fun p hp => by cases hp)).2 s hs
+  -- an answer that is ε-close to `a` is a candidate of its start and bounds the result
+  have viaCand : ∀ t ∈ (nextInt C basic conj big).visited, ∀ p ∈ candsOf C basic conj t, dist p a ≤ ε →
+      dist0 (nextInt C basic conj big).q ≤ dist0 a + ε := by
+    intro t ht p hp hpa
+    have := inv.min t ht p hp
+    rw [dist0_eq_dist p, dist0_eq_dist a] at *
+    have tr := dist_triangle p a (mk0 zero zero)
+    linarith
+  have candOf : ∀ t, dist (basic t) a ≤ ε → basic t ∈ candsOf C basic conj t := by
+    intro t hta
+    have hfix : fixc (mk0 zero zero) (basic t) = basic t := fixc_c0 _ _ (K.c0 t)
+    have hz : ceq C.delta (mk0 zero zero) (basic t) = false := by
+      rw [ceq_false_iff, dist_symm, ← dist0_eq_dist]
+      have tr := dist_triangle a (basic t) (mk0 zero zero)
+      rw [← dist0_eq_dist, ← dist0_eq_dist, dist_symm] at tr
+      linarith
+    unfold candsOf
+    simp only [hfix, hz, K.c0 t]
+    simp
+  have candsKer : ∀ t, ∀ p ∈ candsOf C basic conj t, p = basic t := by
+    intro t p hp
+    have hfix : fixc (mk0 zero zero) (basic t) = basic t := fixc_c0 _ _ (K.c0 t)
+    unfold candsOf at hp
+    simp only [hfix, K.c0 t] at hp
+    by_cases hz : ceq C.delta (mk0 zero zero) (basic t) = true
+    · simp [hz] at hp
+    · simp [hz] at hp; exact hp
+  rcases hcov with hv | ⟨t, ht, p, hp, hlt⟩
+  · have hq := K.cap a ha s hds
+    exact viaCand s hv _ (candOf s hq) hq
+  · have hpt := candsKer t p hp
+    obtain ⟨a', ha', hta'⟩ := K.snd t
+    rw [hpt] at hlt
+    have t1 := dist_triangle a s a'
+    have t2 := dist_triangle s (basic t) a'
+    rw [dist_symm s (basic t)] at t2
+    have hthr : nextThr C = 2 * C.t1 - C.d2 - C.delta := by simp [nextThr, two_real]
+    have : dist a a' = 0 := K.sep a a' ha ha' (by rw [hthr] at hlt; linarith)
+    have hq : dist (basic t) a ≤ ε := by rw [dist_congr_of_zero this]; exact hta'
+    exact viaCand t ht _ (candOf t hq) hq
+
 end GeoVerif.IntersectSearch
